@@ -158,3 +158,10 @@ Close Scope string_scope.
 Definition eq_equivalence {V} (veq : V -> V -> bool) : Prop :=
   (forall a, veq a a = true) /\ (forall a b, veq a b = veq b a) /\
   (forall a b c, veq a b = true -> veq b c = true -> veq a c = true).
+
+(* "ordered by left row position and then right row position" *)
+Definition pair_before (p q : rowpair) : Prop :=
+  match p, q with
+  | (Some i, Some j), (Some i', Some j') => i < i' \/ (i = i' /\ j < j')
+  | _, _ => False
+  end.
